@@ -46,6 +46,9 @@ THEOREMS = [
     "CatEvals.resample_is_bincount", "CatEvals.resampleProbs_valid", "CatEvals.choiceIdx_in_range",
     "CatEvals.resample_count_conserved", "CatEvals.resample_never_from_empty_bin", "CatEvals.rm_stat_eq_doc_resampled",
     "CatEvals.binCount_sum", "CatEvals.centresOK_spec", "CatEvals.pl_notvalid_branch_unreachable",
+    # Properties/C10_Session.lean: several evaluations on one forecast object (cached mean rates threaded through)
+    "CatEvals.tests_with_mean_rates", "CatEvals.ensureRates_coherent", "CatEvals.evalStep_history_free",
+    "CatEvals.session_history_free", "CatEvals.fresh_forecast_coherent",
 ]
 TRUSTED = ["Lean 4.33 kernel", "axioms: propext, Classical.choice, Quot.sound at most",
            "Real.log / an abstract loggamma stand for numpy.log, numpy.log10 (= log/log 10) and scipy.special.loggamma; "
@@ -70,6 +73,10 @@ RULE = ("catalog forecasts of 1..30 synthetic catalogs (each empty with a per-ca
         "default arguments (verbose=True, no seed) in a quarter / a seventh of the cases; magnitude edges with float noise "
         "(4.95 + k*0.1) and events at the decimal number next to an edge (12 % of the cases); resampled catalogs: N_obs events, "
         "support inside the union histogram, pooled bin totals within a 1e-12 binomial tail; "
+        "every case is a SESSION on shared objects: tests on forecast A, [tests on a second forecast B sharing the region and "
+        "the observed catalog object], [the observed catalog changed in place by the caller], remaining tests, repeated "
+        "tests, closing number test; cached expected rates compared after every test; forecasts carrying filters with "
+        "apply_filters=True; one case per run with more than 65535 events in one cell / bin / catalog; "
         "non-trivial = at least one test returned status normal/undersampled with a non-empty distribution; distinct by "
         "(region sizes, all count matrices, mode)")
 
@@ -125,7 +132,11 @@ def record_choice(rec):
 
     def wrapped(a, size=None, replace=True, p=None):
         r = orig(a, size=size, replace=replace, p=p)
-        rec.append(numpy.array(r, dtype=float).ravel().tolist())
+        arr = numpy.array(r, dtype=float)
+        if arr.ndim >= 2:          # all catalogs drawn in one call: one row per resampled catalog
+            rec.extend(row.ravel().tolist() for row in arr)
+        else:
+            rec.append(arr.ravel().tolist())
         return r
     numpy.random.choice = wrapped
     try:
@@ -227,7 +238,107 @@ def gen_case(rng, tier):
     # (b) a call sequence that changes the synthetic catalogs in place before the tests
     if rng.random() < 0.25:
         case["premut"] = gen_premut(rng, case, draw_events, sampled, cw)
+    elif rng.random() < 0.12:
+        # (c) filters carried by the forecast and applied while it is iterated (apply_filters=True), the evaluation being
+        # the first pass: list-backed and streamed forecasts alike
+        case["fc_filter"] = dict(k0=rng.randint(0, K - 1), as_list=rng.random() < 0.5)
+    # (d) the SESSION: tests of this forecast, interleaved with tests of a second forecast B that shares the region object
+    # and the observed catalog object, an in-place change of the observed catalog by the caller, repeated tests, and a
+    # closing number test (it shows any catalog a test trimmed)
+    order = case["order"]
+    sess = dict(split=rng.randint(0, len(order)), repeat=rng.sample(order, rng.randint(0, min(2, len(order)))))
+    if rng.random() < 0.3:
+        simsB = [list(sm) for sm in sims]
+        how = rng.choice(["reversed+one", "subset", "fresh"])
+        if how == "reversed+one":
+            simsB = simsB[::-1] + [draw_events(rng.randint(1, nmax), sampled, cw)]
+        elif how == "subset":
+            simsB = simsB[::2] or simsB
+        else:
+            simsB = [draw_events(rng.randint(0, nmax), list(range(C)), [1] * C) for _ in range(rng.randint(1, 4))]
+        if any(simsB):
+            sess["B"] = dict(sims=simsB, tests=rng.sample(order, rng.randint(1, min(3, len(order)))), n_cat=rng.random() < 0.5)
+    if case["obs"] and rng.random() < 0.25:
+        om = dict(kind=rng.choice(["filter-mag", "filter-mag-list", "filter-lon", "truncate"]), k1=rng.randint(0, K - 1),
+                  ix0=rng.choice(sorted(set(ix for ix, _ in cells))))
+        view = obs_view(case, om)
+        parked = (not view["obs"]) and view.get("obs_out") and "obs-all-below-min-magnitude" in AWAITING_DECISION
+        if not parked:
+            sess["obsmut"] = om
+    case["session"] = sess
     return case
+
+
+def gen_big_case(rng):
+    """counts above 65535 in one cell / one magnitude bin / one catalog (16-bit counters wrap there)"""
+    K = rng.choice([1, 2, 3])
+    C = rng.choice([1, 2])
+    nbig = 65536 + rng.randint(1, 9000)
+    def evs(n):
+        return [(i % C if rng.random() < 0.5 else 0, (i // 7) % K if K > 1 and i % 5 == 0 else 0, 0.5, 0.5, 0.5) for i in range(n)]
+    sims = [evs(nbig), evs(rng.randint(1, 40)), []]
+    rng.shuffle(sims)
+    obs = evs(65536 + rng.randint(1, 500)) if rng.random() < 0.5 else evs(rng.randint(1, 30))
+    case = dict(C=C, K=K, cells=[(i, 0) for i in range(C)], dh=1.0, x0=0.0, y0=0.0, m0=4.0, dm=0.5, sims=sims, obs=obs,
+                kind="big-counts", mode=rng.choice(["memory", "memory-noncat"]), cat_region=True, gap_empty=False,
+                top_open=False, order=rng.sample(["n", "s", "m", "pl", "rm", "mll"], 6), seed=rng.choice([0, 7]),
+                both_modes=False, verbose=False, seed_arg=True)
+    case["session"] = dict(split=len(case["order"]), repeat=[])
+    return case
+
+
+def obs_sequence(case):
+    """the observed catalog in catalog order: ('in', event) inside the magnitude range, ('out', tuple) below it"""
+    seq = [("in", e) for e in case["obs"]]
+    for n, o in enumerate(case.get("obs_out") or []):
+        seq.insert(min(len(seq), 2 * n), ("out", o))
+    return seq
+
+
+def obs_view(case, om):
+    """the case as the tests see it after the caller changed the observed catalog in place (`om`)"""
+    seq = obs_sequence(case)
+    if om["kind"] in ("filter-mag", "filter-mag-list"):
+        seq = [(w, e) for w, e in seq if w == "in" and raw_magnitude(case, e) >= edge_of(case, om["k1"])]
+    elif om["kind"] == "filter-lon":
+        seq = [(w, e) for w, e in seq if case["cells"][e[0]][0] >= om["ix0"]]
+    else:
+        seq = seq[:len(seq) // 2]
+    return dict(case, obs=[e for w, e in seq if w == "in"], obs_out=[e for w, e in seq if w == "out"])
+
+
+def apply_obsmut(case, obs, mags, om):
+    with quiet():
+        if om["kind"] == "filter-mag":
+            obs.filter(f"magnitude >= {float(mags[om['k1']])!r}")
+        elif om["kind"] == "filter-mag-list":
+            obs.filter([f"magnitude >= {float(mags[om['k1']])!r}"])
+        elif om["kind"] == "filter-lon":
+            obs.filter(f"longitude >= {float(case['x0'] + om['ix0'] * case['dh'])!r}")
+        else:
+            obs.catalog = obs.catalog[:len(obs.catalog) // 2]
+
+
+def session_plan(case):
+    """[(who, view, tests, obsmut-before?)]: A = the forecast of the case, B = a second forecast on the same region/observation"""
+    sess = case.get("session") or dict(split=len(case["order"]), repeat=[])
+    order = list(case["order"])
+    i = min(sess.get("split", len(order)), len(order))
+    plan = [("A", None, order[:i], None)]
+    if sess.get("B"):
+        plan.append(("B", None, [t for t in sess["B"]["tests"] if t in order], None))
+    tail = order[i:] + [t for t in sess.get("repeat", []) if t in order] + ["n"]
+    # a test may occur several times in the tail: split so that every segment holds a test once
+    segs, cur = [], []
+    for t in tail:
+        if t in cur:
+            segs.append(cur)
+            cur = []
+        cur.append(t)
+    segs.append(cur)
+    for j, tests in enumerate(segs):
+        plan.append(("A", None, tests, sess.get("obsmut") if j == 0 else None))
+    return [st for st in plan if st[2] or st[3]]
 
 
 def gen_premut(rng, case, draw_events, sampled, cw):
@@ -273,6 +384,9 @@ def raw_magnitude(case, e):
 def effective_sims(case, mode):
     """the synthetic catalogs as they are when the tests run (harness's own bookkeeping of the in-place changes)"""
     pm = case.get("premut")
+    ff = case.get("fc_filter")
+    if ff:      # filters carried by the forecast are applied on every pass, in every mode
+        return [[e for e in evs if raw_magnitude(case, e) >= edge_of(case, ff["k0"])] for evs in case["sims"]]
     if not pm or mode == "stream-nostore":       # a forecast re-read from file on every pass forgets the changes
         return case["sims"]
     out = [list(s) for s in case["sims"]]
@@ -292,7 +406,7 @@ def effective_sims(case, mode):
 
 
 def effective_case(case, mode=None):
-    if not case.get("premut"):
+    if not case.get("premut") and not case.get("fc_filter"):
         return case
     return dict(case, sims=effective_sims(case, mode or case["mode"]))
 
@@ -364,26 +478,35 @@ def write_csv(case, origins, mags, path):
 def build_forecast(case, mode, region, origins, mags, tmpdir):
     import csep
     from csep.core.forecasts import CatalogForecast
+    kw = {}
+    ff = case.get("fc_filter")
+    if ff:
+        flt = f"magnitude >= {float(mags[ff['k0']])!r}"
+        kw = dict(filters=[flt] if ff["as_list"] else flt, apply_filters=True)
     if mode.startswith("memory"):
         cats = [make_catalog(case, region, origins, mags, evs, with_region=case["cat_region"], cid=j)
                 for j, evs in enumerate(case["sims"])]
         if mode == "memory-noncat":
-            return CatalogForecast(catalogs=cats, region=region, name="f")
-        return CatalogForecast(catalogs=cats, region=region, n_cat=len(cats), name="f")
+            return CatalogForecast(catalogs=cats, region=region, name="f", **kw)
+        return CatalogForecast(catalogs=cats, region=region, n_cat=len(cats), name="f", **kw)
     path = os.path.join(tmpdir, "forecast.csv")
     write_csv(case, origins, mags, path)
-    return csep.load_catalog_forecast(path, region=region, store=(mode == "stream-store"), name="f",
-                                      apply_filters=False)
+    if not kw:
+        kw = dict(apply_filters=False)
+    return csep.load_catalog_forecast(path, region=region, store=(mode == "stream-store"), name="f", **kw)
 
 
 def make_observation(case, region, origins, mags):
     """observed catalog: the events inside the magnitude range plus `obs_out` events below region.magnitudes[0]
     (interleaved), as a catalog that was filtered in space and time only"""
     from csep.core.catalogs import CSEPCatalog
-    rows = event_rows(case, origins, mags, case["obs"])
-    for n, (c, fx, fy, drop) in enumerate(case.get("obs_out") or []):
-        row = (float(origins[c][0]) + case["dh"] * fx, float(origins[c][1]) + case["dh"] * fy, float(mags[0]) - drop)
-        rows.insert(min(len(rows), 2 * n), row)
+    rows = []
+    for w, e in obs_sequence(case):
+        if w == "in":
+            rows.append(event_rows(case, origins, mags, [e])[0])
+        else:
+            c, fx, fy, drop = e
+            rows.append((float(origins[c][0]) + case["dh"] * fx, float(origins[c][1]) + case["dh"] * fy, float(mags[0]) - drop))
     data = [(str(i), 1000 * (i + 1), lat, lon, 5.0, mag) for i, (lon, lat, mag) in enumerate(rows)]
     return CSEPCatalog(data=data, region=region)
 
@@ -451,26 +574,33 @@ def canon_result(r):
     return dict(status=r.status, observed=obs, quantile=qq, dist=[float(x) for x in r.test_distribution])
 
 
-def run_impl(case, mode, tmpdir):
-    """returns dict test -> canonical result / ('error', type), plus recorded draws and mean rates"""
-    from csep.core import catalog_evaluations as ce
-    region, origins, mags = build_region(case)
-    obs = make_observation(case, region, origins, mags)
+def read_rates(fc):
+    """the forecast's cached mean gridded rates as plain numbers (None when not computed); never raises"""
+    try:
+        er = fc.expected_rates
+        if er is None:
+            return None
+        return dict(spatial=[float(x) for x in er.spatial_counts()], mag=[float(x) for x in er.magnitude_counts()],
+                    total=float(er.sum()), n_cat=fc.n_cat)
+    except Exception as e:
+        return dict(error=f"{type(e).__name__}: {e}"[:160])
 
-    def fresh():
-        f = build_forecast(case, mode, region, origins, mags, tmpdir)
-        apply_premut(case, mode, f, obs, region, origins, mags)
-        return f
-    fc = fresh()
-    out, draws, raw = {}, {}, {}
-    n_union = sum(len(s) for s in effective_sims(case, mode))
-    for t in case["order"]:
+
+def run_tests(case, fc, obs, tests, fresh):
+    """run `tests` on the forecast object `fc`; returns (out, draws, raw, rates_after, fc) — fc may have been rebuilt"""
+    from csep.core import catalog_evaluations as ce
+    out, draws, raw, rates_after = {}, {}, {}, {}
+    n_union = None
+    for t in tests:
         rec = []
-        if t in ("rm", "mll", "mllfull") and n_union == 0 and (case["obs"] or case.get("obs_out")):
-            # resampling from an empty union histogram is undefined (probabilities 0/0): outside the domain
-            out[t] = ("error", "skipped-empty-union", "")
-            draws[t] = rec
-            continue
+        if t in ("rm", "mll", "mllfull"):
+            if n_union is None:
+                n_union = case["_n_union"]
+            if n_union == 0 and (case["obs"] or case.get("obs_out")):
+                # resampling from an empty union histogram is undefined (probabilities 0/0): outside the domain
+                out[t] = ("error", "skipped-empty-union", "")
+                draws[t] = rec
+                continue
         vb = bool(case.get("verbose"))
         skw = dict(seed=case["seed"]) if case.get("seed_arg", True) else {}
         if not skw:
@@ -505,14 +635,50 @@ def run_impl(case, mode, tmpdir):
         except Exception as e:
             out[t] = ("error", type(e).__name__, str(e)[:120])
             # an exception inside a pass leaves the forecast's cursor mid-way (C13): start from a fresh object
-            fc = fresh()
+            try:
+                fc = fresh()
+            except Exception as e2:       # never a harness crash: every later test reports the failure
+                out[t] = ("error", type(e2).__name__, "rebuilding the forecast: " + str(e2)[:100])
         draws[t] = rec
-    rates = None
-    if fc.expected_rates is not None:
-        er = fc.expected_rates
-        rates = dict(spatial=[float(x) for x in er.spatial_counts()], mag=[float(x) for x in er.magnitude_counts()],
-                     total=float(er.sum()), n_cat=fc.n_cat)
-    return out, draws, rates, raw, mags
+        rates_after[t] = read_rates(fc)
+    return out, draws, raw, rates_after, fc
+
+
+def run_impl(case, mode, tmpdir):
+    """runs the SESSION of the case (session_plan). Returns the list of segments
+    dict(who, view (the case as that segment's tests see it), out, draws, raw, rates_after) and the magnitude edges."""
+    region, origins, mags = build_region(case)
+    obs = make_observation(case, region, origins, mags)
+
+    def fresh_A():
+        f = build_forecast(case, mode, region, origins, mags, tmpdir)
+        apply_premut(case, mode, f, obs, region, origins, mags)
+        return f
+    sess = case.get("session") or {}
+    caseB = None
+    if sess.get("B"):
+        caseB = dict(case, sims=sess["B"]["sims"], premut=None, fc_filter=None)
+
+    def fresh_B():
+        return build_forecast(caseB, "memory" if sess["B"].get("n_cat") else "memory-noncat", region, origins, mags, tmpdir)
+    fcs = {"A": fresh_A(), "B": None}
+    viewA = effective_case(case, mode)
+    cur_obs_view = {}
+    segs = []
+    for who, _, tests, om in session_plan(case):
+        if om:
+            apply_obsmut(case, obs, mags, om)
+            ov = obs_view(case, om)
+            cur_obs_view = dict(obs=ov["obs"], obs_out=ov["obs_out"])
+        if who == "B" and fcs["B"] is None:
+            fcs["B"] = fresh_B()
+        base = viewA if who == "A" else caseB
+        view = dict(base, **cur_obs_view)
+        view["_n_union"] = sum(len(x) for x in view["sims"])
+        out, draws, raw, rates_after, fcs[who] = run_tests(view, fcs[who], obs, tests, fresh_A if who == "A" else fresh_B)
+        segs.append(dict(who=who, view=view, out=out, draws=draws, raw=raw, rates_after=rates_after, tests=list(tests),
+                         obsmut=om))
+    return segs, mags
 
 
 def hist_of_draw(values, mags, K):
@@ -577,7 +743,9 @@ def oracle(case, out, draws_h, rates):
             bad.append(f"{name}: non-finite entry in the test distribution")
 
     # mean gridded rates (C13 consumed): spatial, magnitude, total
-    if rates is not None:
+    if rates is not None and "error" in rates:
+        bad.append(f"reading the forecast's expected rates raised {rates['error']}")
+    elif rates is not None:
         want_sp = [float(Fraction(x, J)) for x in sp_u]
         want_mg = [float(Fraction(x, J)) for x in mg_u]
         if rates["n_cat"] != J:
@@ -797,23 +965,33 @@ OPS = dict(s="c10_s", pl="c10_pl", m="c10_m", rm="c10_rm", mll="c10_mll", mllful
 OPS_OUT = dict(m="c10_mo", rm="c10_rmo", mll="c10_mllo", mllfull="c10_mllo")
 
 
-def queue_model(drv, case, draws_h):
+def queue_model(drv, case, draws_h, only=None):
+    """one driver request per test of the step (`only`), plus the mean rates"""
     C, K = case["C"], case["K"]
+    want = (lambda t: True) if only is None else (lambda t: t in only)
     sims = ";".join(flat(grid_of(s, C, K)) for s in case["sims"])
     obs = flat(grid_of(case["obs"], C, K))
     nout = len(case.get("obs_out") or [])
     if nout:
         # observation with events below the first magnitude edge: the `...Out` models (count matrix + their number)
-        idx = {"n": drv.ask(f"c10_no {C} {K} {sims} {obs} {nout}"), "rates": drv.ask(f"c10_rates {C} {K} {sims}")}
+        idx = {"rates": drv.ask(f"c10_rates {C} {K} {sims}")}
+        if want("n"):
+            idx["n"] = drv.ask(f"c10_no {C} {K} {sims} {obs} {nout}")
         for t, op in OPS_OUT.items():
+            if not want(t):
+                continue
             if t == "m":
                 idx[t] = drv.ask(f"{op} {C} {K} {sims} {obs} {nout}")
             else:
                 d = ";".join(",".join(map(str, h)) for h in draws_h.get(t, [])) or "-"
                 idx[t] = drv.ask(f"{op} {C} {K} {sims} {obs} {d} {nout}")
         return idx
-    idx = {"n": drv.ask(f"c10_n {C} {K} {sims} {obs}"), "rates": drv.ask(f"c10_rates {C} {K} {sims}")}
+    idx = {"rates": drv.ask(f"c10_rates {C} {K} {sims}")}
+    if want("n"):
+        idx["n"] = drv.ask(f"c10_n {C} {K} {sims} {obs}")
     for t, op in OPS.items():
+        if not want(t):
+            continue
         if t in ("rm", "mll", "mllfull"):
             d = ";".join(",".join(map(str, h)) for h in draws_h.get(t, [])) or "-"
             idx[t] = drv.ask(f"{op} {C} {K} {sims} {obs} {d}")
@@ -894,10 +1072,16 @@ def check_calibration(run, drv, pending, case, raw):
 
 
 # ----------------------------------------------------------------------------- one case
+def seg_equal(a, b):
+    if isinstance(a, tuple) or isinstance(b, tuple):
+        return isinstance(a, tuple) and isinstance(b, tuple) and a[1] == b[1]
+    return repr(a) == repr(b)
+
+
 def check_case(run, drv, pending, case):
     tmpdir = tempfile.mkdtemp(prefix="c10_", dir=os.environ.get("TMPDIR", "/tmp"))
     try:
-        out, draws, rates, raw, mags = run_impl(case, case["mode"], tmpdir)
+        segs, mags = run_impl(case, case["mode"], tmpdir)
         other = None
         if case.get("both_modes") and not (case.get("premut") and case["mode"] == "stream-nostore"):
             m2 = "stream-store" if case["mode"].startswith("memory") else "memory"
@@ -905,57 +1089,102 @@ def check_case(run, drv, pending, case):
     finally:
         shutil.rmtree(tmpdir, ignore_errors=True)
     full_case = case
-    case = effective_case(case)      # oracle and model see the synthetic catalogs as they are when the tests run
-    C, K = case["C"], case["K"]
-    draws_h = {t: [hist_of_draw(v, mags, K) for v in draws.get(t, [])] for t in ("rm", "mll", "mllfull")}
     slim = {k: v for k, v in full_case.items()}
+    C, K = case["C"], case["K"]
+    viewA = effective_case(case)
     nontriv = any(isinstance(r, dict) and r["status"] in ("normal", "undersampled") and r["dist"]
-                  for t, r in out.items() if t != "n")
+                  for sg in segs for t, r in sg["out"].items() if t != "n")
     pm = full_case.get("premut")
-    key = (C, K, tuple(flat(grid_of(s, C, K)) for s in full_case["sims"]), flat(grid_of(case["obs"], C, K)), case["mode"],
-           len(case.get("obs_out") or []), str(pm and (pm["pre"], pm["mut"], pm["where"], pm["subset"], pm["k0"], pm["ix0"])))
+    sess = full_case.get("session") or {}
+    big = len(full_case["obs"]) > 5000 or any(len(x) > 5000 for x in full_case["sims"])
+    key = (C, K, tuple(flat(grid_of(x, C, K)) for x in full_case["sims"]), flat(grid_of(case["obs"], C, K)), case["mode"],
+           len(case.get("obs_out") or []), str(pm and (pm["pre"], pm["mut"], pm["where"], pm["subset"], pm["k0"], pm["ix0"])),
+           str(sess.get("obsmut")), str(sess.get("B") and sess["B"]["tests"]), str(full_case.get("fc_filter")))
     run.case(dict(C=C, K=K, J=len(case["sims"]), kind=case["kind"], mode=case["mode"],
                   n_obs=len(case["obs"]), n_obs_below_min_mag=len(case.get("obs_out") or []),
-                  sizes=[len(s) for s in case["sims"]][:12],
-                  premut=pm and dict(pre=pm["pre"], mut=pm["mut"], where=pm["where"], subset=pm["subset"])),
+                  sizes=[len(x) for x in viewA["sims"]][:12],
+                  premut=pm and dict(pre=pm["pre"], mut=pm["mut"], where=pm["where"], subset=pm["subset"]),
+                  session=[(sg["who"], sg["tests"], bool(sg["obsmut"])) for sg in segs]),
              key if nontriv else None)
     run.count("obs:" + case["kind"])
     run.count("mode:" + case["mode"])
     if case.get("noisy_edges"):
         run.count("noisy-magnitude-edges")
+    if case.get("fc_filter"):
+        run.count("forecast-carries-filter:" + case["mode"])
+    if sess.get("B"):
+        run.count("session:second-forecast-on-shared-region")
+    if sess.get("obsmut"):
+        run.count("session:observation-changed-in-place:" + sess["obsmut"]["kind"])
+    if sess.get("repeat"):
+        run.count("session:repeated-tests")
     if pm:
-        changed = [len(a) for a in case["sims"]] != [len(a) for a in full_case["sims"]]
+        changed = [len(a) for a in viewA["sims"]] != [len(a) for a in full_case["sims"]]
         run.count(f"premut:{pm['mut']}:{pm['where']}:{case['mode']}" + (":sizes-changed" if changed else ""))
         run.count("premut-pre:" + pm["pre"])
-    for t, r in out.items():
-        if isinstance(r, tuple):
-            run.count(f"{t}:error:{r[1]}")
-        elif r is None:
-            run.count(f"{t}:noresult")
-        else:
-            run.count(f"{t}:{r['status']}")
-    # known finding: the resampled tests need a bin width and fail on a single magnitude bin
-    for t in ("rm", "mll"):
-        r = out.get(t)
-        if isinstance(r, tuple) and K == 1 and r[1] == "IndexError" and case["obs"]:
-            run.oracle_failure(slim, f"{t}: IndexError on a region with a single magnitude bin",
-                               signature="resampled-magnitude-test:single-magnitude-bin")
-    for msg in oracle(case, out, draws_h, rates):
-        run.oracle_failure(slim, msg)
-    if other is not None:
-        for t in out:
-            a, b = out[t], other[t]
-            if isinstance(a, tuple) or isinstance(b, tuple):
-                same = isinstance(a, tuple) and isinstance(b, tuple) and a[1] == b[1]
+    rawA = {}
+    for k, sg in enumerate(segs):
+        view, out = sg["view"], sg["out"]
+        where = f"[step {k}: forecast {sg['who']}, tests {sg['tests']}" + (", after the observed catalog was changed in place" if sg["obsmut"] else "") + "] "
+        for t, r in out.items():
+            if isinstance(r, tuple):
+                run.count(f"{t}:error:{r[1]}")
+            elif r is None:
+                run.count(f"{t}:noresult")
             else:
-                same = repr(a) == repr(b)
-            if not same:
-                run.oracle_failure(slim, f"{t}: in-memory and streamed forecasts give different results: {a} vs {b}")
+                run.count(f"{t}:{r['status']}")
+        # known finding: the resampled tests need a bin width and fail on a single magnitude bin
+        for t in ("rm", "mll"):
+            r = out.get(t)
+            if isinstance(r, tuple) and K == 1 and r[1] == "IndexError" and view["obs"]:
+                run.oracle_failure(slim, f"{t}: IndexError on a region with a single magnitude bin",
+                                   signature="resampled-magnitude-test:single-magnitude-bin")
+        draws_h = {}
+        try:
+            draws_h = {t: [hist_of_draw(v, mags, K) for v in sg["draws"].get(t, [])] for t in ("rm", "mll", "mllfull")}
+        except Exception as e:      # a resampled value outside every magnitude bin
+            run.oracle_failure(slim, where + f"recorded resampled magnitudes cannot be binned: {type(e).__name__}: {e}")
+        try:
+            msgs = oracle(view, out, draws_h, None)
+            # the forecast's cached mean rates after EVERY test of the step (a test that leaves a scale factor or a
+            # divided array behind shows here and in the next test)
+            seen = set()
+            for t, rates in sg["rates_after"].items():
+                if rates is not None:
+                    for m in oracle(view, {}, {}, rates):
+                        if m not in seen:
+                            seen.add(m)
+                            msgs.append(f"after {t}: " + m)
+        except Exception as e:      # an output of an unexpected type / shape: a deviation, not a harness crash
+            msgs = [f"outputs cannot be interpreted: {type(e).__name__}: {e}"]
+        for msg in msgs:
+            run.oracle_failure(slim, where + msg)
+        if other is not None and k < len(other):
+            for t in out:
+                a, b = out[t], other[k]["out"].get(t)
+                if not seg_equal(a, b):
+                    run.oracle_failure(slim, where + f"{t}: in-memory and streamed forecasts give different results: {a} vs {b}")
+        if big:
+            continue          # > 65535 events per bin: judged by the oracle (the driver line would be megabytes)
+        last_rates = None
+        for t in sg["tests"]:
+            if sg["rates_after"].get(t) and "error" not in sg["rates_after"][t]:
+                last_rates = sg["rates_after"][t]
+        try:
+            idx = queue_model(drv, view, draws_h, only=set(out))
+            pending.append(("case", view, idx, out, last_rates, slim))
+            queue_resample(run, drv, pending, view, out, draws_h, mags)
+        except Exception as e:
+            run.oracle_failure(slim, where + f"outputs cannot be handed to the model: {type(e).__name__}: {e}")
+        if sg["who"] == "A":
+            rawA.update(sg["raw"])
+    if other is not None:
         run.count("both-modes")
-    idx = queue_model(drv, case, draws_h)
-    pending.append(("case", case, idx, out, rates))
-    queue_resample(run, drv, pending, case, out, draws_h, mags)
-    check_calibration(run, drv, pending, case, raw)
+    if not big:
+        try:
+            check_calibration(run, drv, pending, viewA, rawA)
+        except Exception as e:
+            run.oracle_failure(slim, f"calibration_test inputs/outputs cannot be interpreted: {type(e).__name__}: {e}")
 
 
 def flush(run, drv, pending):
@@ -984,12 +1213,13 @@ def flush(run, drv, pending):
             if not ok or not close(float(Fraction(res[j])), ks, 1e-12):
                 run.mismatch(dict(case, calib=True), [got, ks], [res[i], res[j]])
             continue
-        _, case, idx, out, rates = item
+        _, case, idx, out, rates = item[:5]
+        replay_case = item[5] if len(item) > 5 else case
         C, K = case["C"], case["K"]
         NU = sum(len(s) for s in case["sims"])
         # number test
-        r = out["n"]
-        if isinstance(r, dict):
+        r = out.get("n")
+        if isinstance(r, dict) and "n" in idx:
             d, o, q = res[idx["n"]].split("|")
             md = [] if d == "-" else [int(x) for x in d.split(",")]
             qa, qb = q.split(",")
@@ -998,7 +1228,7 @@ def flush(run, drv, pending):
                 a, b = s.split(":")
                 return int(a) / int(b)
             if md != r["dist"] or int(o) != r["observed"] or [fr(qa), fr(qb)] != r["quantile"]:
-                run.mismatch(case, r, res[idx["n"]])
+                run.mismatch(replay_case, r, res[idx["n"]])
         # mean rates
         if rates is not None:
             sp, mg, tot = res[idx["rates"]].split("|")
@@ -1007,7 +1237,7 @@ def flush(run, drv, pending):
             if not (len(msp) == len(rates["spatial"]) and all(close(a, b, 1e-12) for a, b in zip(msp, rates["spatial"]))
                     and len(mmg) == len(rates["mag"]) and all(close(a, b, 1e-12) for a, b in zip(mmg, rates["mag"]))
                     and close(unbits(tot), rates["total"], 1e-12)):
-                run.mismatch(case, rates, res[idx["rates"]])
+                run.mismatch(replay_case, rates, res[idx["rates"]])
         for t in OPS:
             if t not in out or t not in idx:
                 continue   # test not run on this case (S / PL with observed events outside the magnitude range)
@@ -1020,7 +1250,7 @@ def flush(run, drv, pending):
                 continue
             m = parse_model(res[idx[t]])
             if not same_result(r, m):
-                run.mismatch(dict(case, test=t), r, res[idx[t]])
+                run.mismatch(dict(replay_case, test=t), r, res[idx[t]])
 
 
 def validate_lgamma(run, rng, n=300):
@@ -1051,6 +1281,9 @@ def run(run, rng, tier):
             if fn.endswith(".json"):
                 check_case(run, drv, pending, _from_json(json.load(open(os.path.join(cdir, fn)))))
                 run.count("corpus")
+    for _ in range(1 if tier == "quick" else 4):
+        check_case(run, drv, pending, gen_big_case(rng))
+        run.count("big-counts")
     n = 900 if tier == "quick" else 9000
     for i in range(n):
         check_case(run, drv, pending, gen_case(rng, tier))
